@@ -256,7 +256,7 @@ func init() {
 			`(*pac.SignatureData).Unmarshal`, `(*pac.PACType).verify`, `(*pac.PACType).Unmarshal`, `(*pac.PACType).ProcessPACInfoBuffers`,
 			`(*messages.Ticket).GetPACType`, `(*keytab.Keytab).GetEncryptionKey`, `crypto.GetChksumEtype`,
 			`\(crypto\.[A-Za-z0-9]+\)\.VerifyChecksum`, `crypto/common.VerifyChecksum`, `service.VerifyAPREQ`,
-			`(*pac.KerbValidationInfo).GetGroupMembershipSIDs`,
+			`(*pac.KerbValidationInfo).GetGroupMembershipSIDs`, `(service.KRB5BasicAuthenticator).Authenticate`,
 		},
 		Kinds:           kinds(contractKinds...),
 		NeedObligations: true,
@@ -270,7 +270,7 @@ func init() {
 		},
 		NotDecided: []string{
 			"that ZeroSigData equals the PAC octets with exactly the two signature fields zeroed is proved per signature buffer (SignatureData.Unmarshal zeroes exactly the signature octets) but not as a whole-PAC postcondition of ProcessPACInfoBuffers",
-			"the NDR decoding of KerbValidationInfo is a trusted dependency; of GetGroupMembershipSIDs only the extra-SID clause is proved (every extra SID of the validation info is in the returned list) - the '<domain SID>-<RID>' members are built by fmt.Sprintf, outside the subset; the group list and the logon domain id are not tied to the ADCredentials handed over, and KRB5BasicAuthenticator's copy of the same code is not under contract",
+			"the NDR decoding of KerbValidationInfo is a trusted dependency; of GetGroupMembershipSIDs only the extra-SID clause is proved (every extra SID of the validation info is in the returned list) - the '<domain SID>-<RID>' members are built by fmt.Sprintf, outside the subset; the group list and the logon domain id are not tied to the ADCredentials handed over, (the same clauses are proved for KRB5BasicAuthenticator.Authenticate)",
 			"the KDC signature is not verified by the library (only its presence is required), as in the code",
 		},
 		LevelNote: "Proved for every PAC, key and keytab: SignatureData.Unmarshal reads the checksum type as the little-endian word at 0, takes exactly the type's signature length ([MS-PAC] 2.8: 16/12/12/16/24) and returns the buffer with exactly those octets zeroed, everything else (including a trailing RODC identifier) kept; verify / ProcessPACInfoBuffers succeed only with KerbValidationInfo, ClientInfo, server and KDC signature buffers present and the server signature equal to the keyed checksum (usage 17) of its declared type over ZeroSigData; GetPACType reports a PAC without error only if that holds under a keytab key matching the (override) service principal, realm, kvno and etype of the ticket; VerifyAPREQ accepts a request carrying a PAC only then (ghost lastPACBad). GetGroupMembershipSIDs returns a list containing the string form of every extra SID of the validation info (nested-loop invariant with a forall-exists). The attributes VerifyAPREQ hands to the credentials (logon, logoff and password-last-set times, user and primary group id, effective / full name, logon server and domain name) are field by field those of the PAC it has just verified (ghost record of SetADCredentials' argument against the local holding the PAC; FileTime.Time uninterpreted).",
